@@ -454,6 +454,13 @@ class Fn:
         if k == "Local":
             if st["else"] is not None or st["init"] is None:
                 raise Unsupported("let-else / uninitialised let")
+            pt, ini = st["pat"], st["init"]
+            if pt["k"] == "Tuple" and len(pt["elems"]) == 2 and ini["k"] == "MethodCall" and ini["method"] in ("split_at_mut", "split_at") \
+                    and len(ini["args"]) == 1 and sorted(x["k"] for x in pt["elems"]) == ["Ident", "Wild"]:
+                # `let (head, _) = x.split_at_mut(n)` / `let (_, tail) = ..`: the half that is used, as `&mut x[..n]` / `&mut x[n..]`
+                # (split_at panics exactly when that range does: n > len)
+                which = "0" if pt["elems"][0]["k"] == "Ident" else "1"
+                st = dict(st, pat=pt["elems"][int(which)], init={"k": "Field", "base": ini, "member": which})
             return s.expr(st["init"], K(lambda a, t: s.bind_pat(st["pat"], a, t, lambda: s.seq(stmts, i + 1, kend))), hint=s.pat_name(st["pat"]))
         if k == "Expr":
             e = st["expr"]
@@ -1097,6 +1104,19 @@ class Fn:
                     nm = q["elems"][0]["name"]
                 elif q["k"] == "TupleStruct" and q["path"] == ["Ok"] and q["elems"][0]["k"] == "Tuple" and not q["elems"][0]["elems"]:
                     key, pat = "PrOk", "PrOk"
+            if key is None and p["k"] in ("Ident", "Wild"):
+                # a catch-all arm (`other => ..`): one copy per constructor not covered yet, the name bound to the value rebuilt
+                for ck, cpat, cval in (("PrOk", "PrOk", "PReady (Ok tt)"), ("PrErr", "PrErr %s", "PReady (Err %s)"), ("PrPending", "PrPending", "PPending")):
+                    if ck in out:
+                        continue
+                    ev = s.fresh("e") if ck == "PrErr" else None
+                    def rest(arm=arm, p=p, cval=cval, ev=ev):
+                        if p["k"] == "Ident":
+                            s.env[p["name"]] = ("poll", ("res", "unit", ("err", "io")))
+                            s.sub[p["name"]] = (cval % ev) if ev else cval
+                        return s.expr(arm["body"], kb)
+                    out[ck] = ((cpat % ev) if ev else cpat, s.scoped(rest))
+                break
             if key is None or key in out:
                 raise Unsupported("Poll pattern")
             def one(arm=arm, key=key):
@@ -1190,7 +1210,8 @@ class Fn:
 
     def call_sig(s, sig, argvals, k, hint, discard):
         """call a translated function / primitive described by a Sig"""
-        argvals = [(a, t) for a, t in argvals if t != ("skip",)]
+        # the caller's reader handed on to a helper: the helper is translated in the same section, over the same `R`
+        argvals = [(a, t) for a, t in argvals if t not in (("skip",), ("reader",))]
         outs = [i for i, (a, t) in enumerate(argvals) if t and t[0] in ("mslice", "alias", "rb", "rbalias")]
         txt = " ".join([sig.coqname] + ([sig.section_args] if sig.section_args else []) + [paren(s.arg_value(a, t)) for a, t in argvals])
         txt = txt.strip()
@@ -1305,6 +1326,19 @@ class Fn:
                 return Bind(v, Op(nm), k(v, ("opt", ("gen", "R"))))
             if t == ("deframer",):
                 return s.args(al, lambda av: (lambda v: Bind(v, Op(s.lift("call_df %s %s" % (nm, paren(av[0][0])))), k(v, ("res", ("opt", ("tuple", [("range",), "usize"])), ("err", "MalformedInputError")))))(s.fresh("q")))
+        # Self::helper(..) / helper(..): an associated or free function of the same file the tables do not list, translated on demand
+        # like a helper method (it runs in the caller's world; a function without `self` simply does not touch it)
+        st_ = s.cfg.get("struct")
+        if st_ and s.cfg.get("helper") and ((len(p) == 2 and p[0] == "Self") or len(p) == 1) and nm not in s.env \
+                and "::".join(p) not in s.tr.free_fns and "::".join(p) not in CALLS and nm not in s.tr.free_fns and nm[:1].islower():
+            hk = "fn:" + nm
+            if hk not in st_.methods:
+                sig_ = s.cfg["helper"](s, nm, len(p) == 1)
+                if sig_ is not None:
+                    st_.methods[hk] = sig_
+            if hk in st_.methods:
+                sig_ = st_.methods[hk]
+                return s.args(al, lambda av: s.call_sig(sig_, av, k, hint or sig_.hint, discard))
         key = "::".join(p)
         if key in s.tr.free_fns:
             sig = s.tr.free_fns[key]
@@ -1538,6 +1572,24 @@ def lib_bool_then(s, a, t, al, k, hint):
     return s.join(k, build, hint, "m", node=c["body"])
 
 
+def lib_view_get_mut(s, a, t, al, k, hint):
+    """view.get_mut(lo..hi) / get(lo..hi): Some(sub-view) when lo <= hi <= len, else None (no panic)"""
+    r = al[0]
+    if r["k"] != "Range" or r.get("inclusive"):
+        raise Unsupported("get_mut with this index")
+    def with_lo(lo, _t):
+        def with_hi(hi, _t2):
+            txt = ("(if (%s <=? %s) && (%s <=? vlen %s) then Some {| v_off := v_off %s + %s; v_end := v_off %s + %s |} else None)"
+                   % (paren(lo), paren(hi), paren(hi), paren(a), paren(a), paren(lo), paren(a), paren(hi)))
+            return k(txt, ("opt", ("view",)))
+        if r["hi"] is None:
+            return with_hi("vlen %s" % paren(a), "usize")
+        return s.expr(r["hi"], K(with_hi))
+    if r["lo"] is None:
+        return with_lo("0", "usize")
+    return s.expr(r["lo"], K(with_lo))
+
+
 def lib_result_map(s, a, t, al, k, hint):
     c = al[0]
     if c["k"] == "Closure" and len(c["inputs"]) == 1 and c["inputs"][0]["k"] == "Wild" and c["body"]["k"] == "Tuple" and not c["body"]["elems"]:
@@ -1629,6 +1681,7 @@ LIB = {
     ("opt", "ok_or"): lib_ok_or,
     ("opt", "or_else"): lib_or_else,
     ("bool", "then"): lib_bool_then,
+    ("view", "get_mut"): lib_view_get_mut,
 }
 
 
